@@ -286,7 +286,8 @@ def check(chk: Check) -> None:
     from ..par import pmap
 
     chk.rule("C05.FIXPOINT.term-encoder", "the same closure one level up: TermEncoder.encode_iri/encode_literal -> rows -> Decoder resolves the string the writer meant (prefix and datatype tables of size 1..3)", floor=6)
-    jobs = [(role, s_) for role in ROLES for s_ in sizes] + [(t + "@TermEncoder", s_) for t in ("prefix", "datatype") for s_ in (1, 2, 3)]
+    te_sizes = (1, 2, 3) if chk.tier == "quick" else (1, 2, 3, 4)
+    jobs = [(role, s_) for role in ROLES for s_ in sizes] + [(t + "@TermEncoder", s_) for t in ("prefix", "datatype") for s_ in te_sizes]
     total_states = 0
     for res in pmap(_explore_job, jobs, min_parallel=4):
         if res is None:
